@@ -37,6 +37,7 @@ type inlineState struct {
 	quasiTail bool                 // the statement being processed is followed only by a return of plain names
 	n         int
 	notes     []string
+	localLit  map[types.Object]*types.Func // local closures that are only called: read in place like new helpers
 }
 
 // inlinedAwayNow: the set of the program being analysed (one program per process at a time)
@@ -70,9 +71,7 @@ func (p *Prog) applyInlining() {
 			st.tailOnly[fi.Obj] = tail
 		})
 	}
-	if len(st.isNew) == 0 {
-		return
-	}
+	// (local closures that are only called are read in place as well, so the pass runs on the reference tree too)
 	p.newHelpers = map[*types.Func]bool{}
 	for fn := range st.isNew {
 		p.newHelpers[fn] = true
@@ -156,10 +155,13 @@ func inlinable(fi *FuncInfo) (ok bool, tailOnly bool) {
 		return false, false
 	}
 	ok = true
+	movable := movableDefers(fi.Decl.Body)
 	inspectNoLit(fi.Decl.Body, func(n ast.Node) bool {
 		switch x := n.(type) {
 		case *ast.DeferStmt:
-			tailOnly = true
+			if !movable[x] {
+				tailOnly = true
+			}
 		case *ast.CallExpr:
 			if id, isID := x.Fun.(*ast.Ident); isID && id.Name == "recover" {
 				tailOnly = true
@@ -178,6 +180,7 @@ func inlinable(fi *FuncInfo) (ok bool, tailOnly bool) {
 
 // funcBody processes a function (or function-literal) body and the bodies of the literals nested in it.
 func (st *inlineState) funcBody(pk *packagesPkg, body *ast.BlockStmt, stack []*types.Func) {
+	st.registerLocalClosures(pk, body)
 	var lits []*ast.FuncLit
 	ast.Inspect(body, func(n ast.Node) bool {
 		if fl, ok := n.(*ast.FuncLit); ok {
@@ -191,6 +194,47 @@ func (st *inlineState) funcBody(pk *packagesPkg, body *ast.BlockStmt, stack []*t
 		st.tailStmt(pk, fl.Body, stack)
 		fl.Body.List = st.stmts(pk, fl.Body.List, stack)
 	}
+	st.dropInlinedClosures(pk, body)
+}
+
+// dropInlinedClosures removes `name := func…` statements whose every call was read in place (a literal that is never
+// called any more would be taken for a callback that escapes).
+func (st *inlineState) dropInlinedClosures(pk *packagesPkg, body *ast.BlockStmt) {
+	info := pk.TypesInfo
+	if len(st.localLit) == 0 {
+		return
+	}
+	used := map[types.Object]bool{}
+	ast.Inspect(body, func(n ast.Node) bool {
+		if id, ok := n.(*ast.Ident); ok {
+			if o := info.Uses[id]; o != nil && st.localLit[o] != nil {
+				used[o] = true
+			}
+		}
+		return true
+	})
+	astutil.Apply(body, func(c *astutil.Cursor) bool {
+		as, ok := c.Node().(*ast.AssignStmt)
+		if !ok || as.Tok != token.DEFINE || len(as.Lhs) != 1 || len(as.Rhs) != 1 {
+			return true
+		}
+		id, isID := as.Lhs[0].(*ast.Ident)
+		if !isID {
+			return true
+		}
+		o := info.Defs[id]
+		if o == nil || st.localLit[o] == nil || used[o] {
+			return true
+		}
+		if _, isLit := ast.Unparen(as.Rhs[0]).(*ast.FuncLit); !isLit {
+			return true
+		}
+		// only where the cursor can delete (statement lists)
+		if c.Index() >= 0 {
+			c.Delete()
+		}
+		return false
+	}, nil)
 }
 
 // tailStmt: a helper call that is the last statement of a body returns where the body returns.
@@ -563,6 +607,11 @@ func (st *inlineState) eligible(pk *packagesPkg, call *ast.CallExpr, stack []*ty
 func (st *inlineState) eligibleT(pk *packagesPkg, call *ast.CallExpr, stack []*types.Func, tail bool) *FuncInfo {
 	fn := callee(pk.TypesInfo, call)
 	if fn == nil {
+		if id, isID := ast.Unparen(call.Fun).(*ast.Ident); isID && st.localLit != nil {
+			fn = st.localLit[pk.TypesInfo.Uses[id]]
+		}
+	}
+	if fn == nil {
 		return nil
 	}
 	h := st.isNew[fn]
@@ -900,6 +949,20 @@ func (st *inlineState) instantiate(pk *packagesPkg, call *ast.CallExpr, h *FuncI
 		}
 		return true
 	}, nil)
+	// deferred calls that can be written out at the end of the copy
+	var moved []ast.Stmt
+	{
+		mv := movableDefers(body)
+		var kept []ast.Stmt
+		for _, bs := range body.List {
+			if ds, isDefer := bs.(*ast.DeferStmt); isDefer && mv[ds] {
+				moved = append([]ast.Stmt{&ast.ExprStmt{X: ds.Call}}, moved...)
+				continue
+			}
+			kept = append(kept, bs)
+		}
+		body.List = kept
+	}
 	pre = append(pre, body.List...)
 	// a jump to the label that directly follows it says nothing; a label nobody jumps to is dropped
 	if n := len(pre); n > 0 {
@@ -924,6 +987,7 @@ func (st *inlineState) instantiate(pk *packagesPkg, call *ast.CallExpr, h *FuncI
 	if jumps {
 		pre = append(pre, &ast.LabeledStmt{Label: &ast.Ident{NamePos: pos, Name: label}, Colon: pos, Stmt: &ast.EmptyStmt{Semicolon: pos, Implicit: true}})
 	}
+	pre = append(pre, moved...)
 	st.notes = append(st.notes, "new helper "+h.Name()+" inlined at "+st.p.Pos(call.Pos()))
 	if direct {
 		return pre, nil, true
@@ -1551,4 +1615,120 @@ func (st *inlineState) stableArg(pk *packagesPkg, arg ast.Expr, stack []*types.F
 		return n == 0
 	}
 	return n <= 1
+}
+
+// movableDefers: deferred calls of a helper that can be written out at the end of its inlined copy. Every return of
+// the copy becomes a jump to one end label, so a deferred call that is registered unconditionally, before any return of
+// the helper, with a plain receiver and without arguments (`mu.Lock(); defer mu.Unlock()`, `defer f.Close()`,
+// `defer task.End()`) runs exactly there – after the label, in reverse order of registration.
+func movableDefers(body *ast.BlockStmt) map[*ast.DeferStmt]bool {
+	out := map[*ast.DeferStmt]bool{}
+	if body == nil {
+		return out
+	}
+	seenReturn := false
+	for _, st := range body.List {
+		if ds, ok := st.(*ast.DeferStmt); ok {
+			if _, isLit := ds.Call.Fun.(*ast.FuncLit); !isLit && len(ds.Call.Args) == 0 && !seenReturn && pureExpr(ds.Call.Fun) {
+				out[ds] = true
+			}
+			continue
+		}
+		ast.Inspect(st, func(x ast.Node) bool {
+			switch x.(type) {
+			case *ast.ReturnStmt:
+				seenReturn = true
+			case *ast.FuncLit:
+				return false
+			}
+			return true
+		})
+	}
+	return out
+}
+
+// registerLocalClosures: `name := func(…) {…}` whose variable is never reassigned and only ever called is a helper
+// written inside its caller; its calls are read in place like those of a new helper function. (Captured variables are
+// the caller's own objects already, only the parameters have to be bound.)
+func (st *inlineState) registerLocalClosures(pk *packagesPkg, body *ast.BlockStmt) {
+	info := pk.TypesInfo
+	if st.localLit == nil {
+		st.localLit = map[types.Object]*types.Func{}
+	}
+	type cand struct {
+		obj types.Object
+		fl  *ast.FuncLit
+		id  *ast.Ident
+	}
+	var cands []cand
+	ast.Inspect(body, func(n ast.Node) bool {
+		as, ok := n.(*ast.AssignStmt)
+		if !ok || as.Tok != token.DEFINE || len(as.Lhs) != 1 || len(as.Rhs) != 1 {
+			return true
+		}
+		id, isID := as.Lhs[0].(*ast.Ident)
+		fl, isLit := ast.Unparen(as.Rhs[0]).(*ast.FuncLit)
+		if !isID || !isLit || info.Defs[id] == nil || st.localLit[info.Defs[id]] != nil {
+			return true
+		}
+		cands = append(cands, cand{info.Defs[id], fl, id})
+		return true
+	})
+	for _, c := range cands {
+		onlyCalled, nCalls := true, 0
+		var stack []ast.Node
+		ast.Inspect(body, func(n ast.Node) bool {
+			if n == nil {
+				stack = stack[:len(stack)-1]
+				return true
+			}
+			stack = append(stack, n)
+			id, ok := n.(*ast.Ident)
+			if !ok || info.Uses[id] != c.obj {
+				return true
+			}
+			if len(stack) >= 2 {
+				if call, isCall := stack[len(stack)-2].(*ast.CallExpr); isCall && call.Fun == ast.Expr(id) {
+					// not as the call of a go / defer statement
+					if len(stack) >= 3 {
+						switch stack[len(stack)-3].(type) {
+						case *ast.GoStmt, *ast.DeferStmt:
+							onlyCalled = false
+						}
+					}
+					nCalls++
+					return true
+				}
+			}
+			onlyCalled = false
+			return true
+		})
+		if !onlyCalled || nCalls == 0 || posIn(c.fl, c.id.Pos()) {
+			continue
+		}
+		sig, isSig := info.TypeOf(c.fl).(*types.Signature)
+		if !isSig || sig.Variadic() {
+			continue
+		}
+		fn := types.NewFunc(c.fl.Pos(), pk.Types, c.id.Name, sig)
+		fi := &FuncInfo{Obj: fn, Decl: &ast.FuncDecl{Name: &ast.Ident{NamePos: c.id.Pos(), Name: c.id.Name}, Type: c.fl.Type, Body: c.fl.Body}, Pkg: pk}
+		ok, tail := inlinable(fi)
+		if !ok || tail {
+			continue
+		}
+		// recursion through the closure variable
+		selfRef := false
+		ast.Inspect(c.fl.Body, func(n ast.Node) bool {
+			if id, isID := n.(*ast.Ident); isID && info.Uses[id] == c.obj {
+				selfRef = true
+			}
+			return !selfRef
+		})
+		if selfRef {
+			continue
+		}
+		st.isNew[fn] = fi
+		st.tailOnly[fn] = false
+		st.localLit[c.obj] = fn
+	}
 }
